@@ -257,7 +257,7 @@ class Repo:
             yield from self._funcs_in(m.tree.body, m.name, m)
 
     def _funcs_in(self, body, prefix, m):
-        for s in body:
+        for s in stmts_local(body):
             if isinstance(s, ast.FunctionDef):
                 yield f"{prefix}.{s.name}", m, s
                 yield from self._funcs_in(s.body, f"{prefix}.{s.name}", m)
